@@ -8,6 +8,7 @@ import (
 	"bytes"
 	"encoding/hex"
 	"fmt"
+	"math"
 	"math/big"
 	"reflect"
 	"sort"
@@ -235,6 +236,8 @@ func (u *Universe) Build(d *Desc, v *V, rv reflect.Value) {
 		u.Build(d.Sub[0], v, rv)
 	case 'u':
 		rv.SetUint(v.U)
+	case 'F':
+		rv.SetFloat(math.Float64frombits(v.U))
 	case 'i':
 		rv.SetInt(v.I)
 	case 'b':
@@ -354,6 +357,8 @@ func (u *Universe) Dump(d *Desc, rv reflect.Value) *V {
 		return u.Dump(d.Sub[0], rv)
 	case 'u':
 		return &V{K: 'u', U: rv.Uint()}
+	case 'F':
+		return &V{K: 'u', U: math.Float64bits(rv.Float())}
 	case 'i':
 		return &V{K: 'i', I: rv.Int()}
 	case 'b':
